@@ -275,7 +275,7 @@ def execute(h: Dict[str, Any]) -> Dict[str, Any]:
     probes = {k: 0 for k in ["stale_owned_placed", "stale_realname_placed", "stale_casename_placed", "foreign_placed", "empty_pkg_dir_placed", "committed_copy_placed",
                              "cleanup_removed_stale", "stale_overwritten", "fault_fired", "fault_not_reached", "faulted_run_failed",
                              "faulted_run_left_partial", "other_plugin_tree", "merge_files", "model_path_repeated", "model_files_overlap", "different_model_before", "listing_permuted",
-                             "test_dir_used", "uuid_checked", "ascii_locale", "clock_shifted", "long_output_path", "crlf_main_rs", "symlinked_output_dir", "python_optimize", "path_spelled_relative_or_odd", "other_machine_identity"]}
+                             "test_dir_used", "uuid_checked", "ascii_locale", "clock_shifted", "slow_machine_clock", "long_output_path", "crlf_main_rs", "symlinked_output_dir", "python_optimize", "path_spelled_relative_or_odd", "other_machine_identity"]}
     faults_fired: Dict[str, int] = {}
     evlog: List[Any] = []
     try:
@@ -415,6 +415,8 @@ def execute(h: Dict[str, Any]) -> Dict[str, Any]:
                 probes["listing_permuted"] += 1
             if env.get("locale") == "C":
                 probes["ascii_locale"] += 1
+            if (env.get("clock_step") or 0) >= 0.05:
+                probes["slow_machine_clock"] += 1
             if env.get("clock_offset"):
                 probes["clock_shifted"] += 1
             if env.get("optimize"):
